@@ -188,6 +188,26 @@ struct Tracked : std::conditional<KIND == 0, DeclaresRelocatable, DeclaresNothin
     pay = p->pay;
     born(EV_VCTOR);
   }
+  // converting construction from a tracked object of another kind (heterogeneous uninitialized_copy / move / relocate in C15); it may throw
+  template <int K2, typename std::enable_if<K2 != KIND, int>::type = 0>
+  explicit Tracked(const Tracked<K2> &o) {
+    fault_point();
+    o.check_live("read(converting copy source)");
+    key = o.key;
+    pay = o.pay;
+    born(EV_VCTOR);
+  }
+  template <int K2, typename std::enable_if<K2 != KIND, int>::type = 0>
+  explicit Tracked(Tracked<K2> &&o) {
+    fault_point();
+    o.check_live("read(converting move source)");
+    key = o.key;
+    pay = o.pay;
+    born(EV_VCTOR);
+    o.flags |= kMovedFrom;
+    o.key = kMovedFromKey;
+    o.pay = 0xDEADu;
+  }
   Tracked(const Tracked &o) noexcept(KIND == 4) {
     static_assert(KIND != 2, "move-only");
     if (KIND != 4) fault_point();
